@@ -174,6 +174,7 @@ func TestVerifC11Lines(t *testing.T) {
 		base := rng.Uint32()
 		last := map[uint32]net.HardwareAddr{}
 		var sb strings.Builder
+		v6lines := 0
 		for k := 0; k < n; k++ {
 			a := base + uint32(rng.Intn(hosts))
 			mac := c11macOf(a, byte(k))
@@ -189,6 +190,12 @@ func TestVerifC11Lines(t *testing.T) {
 				macS = strings.ToUpper(macS)
 			case 1:
 				macS = strings.ReplaceAll(macS, ":", "-")
+			}
+			if rng.Intn(6) == 0 {
+				// an IPv6 neighbour whose low 32 bits equal some IPv4 host of the file: another host, another MAC
+				b := oracle.U32ToIP(base + uint32(rng.Intn(hosts)))
+				fmt.Fprintf(&sb, `{"ip":"fe80::%x:%x","mac":"06:66:66:66:66:%02x","vendor":"v6 neighbour"}`+"\n", uint16(b[0])<<8|uint16(b[1]), uint16(b[2])<<8|uint16(b[3]), k&0xff)
+				v6lines++
 			}
 			switch rng.Intn(6) {
 			case 0:
@@ -242,6 +249,15 @@ func TestVerifC11Lines(t *testing.T) {
 				break
 			}
 		}
+		// hosts of the range that have no line of their own must not inherit an IPv6 neighbour's entry
+		for k := 0; k < hosts && good; k++ {
+			a := base + uint32(k)
+			if _, listed := last[a]; !listed && c11get(cache, a, false) != nil {
+				run.Violation("lines:phantom-entry", fmt.Sprintf("cache file: %s has no line but Get returns %v (an entry of another host)", oracle.IPString(oracle.U32ToIP(a)), c11get(cache, a, false)), truncStr(text, 2000))
+				good = false
+			}
+		}
+		run.Count("cache_file_ipv6_lines", int64(v6lines))
 		if good {
 			run.Count("cache_files_loaded", 1)
 			if viaStdin {
@@ -329,6 +345,14 @@ func c11runDest(run *vlab.Run, c c11destCase) {
 				b := oracle.U32ToIP(a)
 				cache.Put(net.IP(b[:]), c11macOf(a, 0))
 			}
+		}
+	}
+	// IPv6 neighbours whose low 32 bits equal a target address: other hosts, never to be used
+	for p := range bases {
+		for i := 1; i <= c.N && i <= 200; i++ {
+			a := bases[p] + uint32(i)
+			v6 := net.ParseIP(fmt.Sprintf("fe80::%x:%x", a>>16, a&0xffff))
+			cache.Put(v6, net.HardwareAddr{6, 0x66, 0x66, 0x66, 0x66, byte(i)})
 		}
 	}
 	ctx, cancel := context.WithCancel(context.Background())
